@@ -10,7 +10,7 @@ use serde_json::{json, Value};
 
 pub const RULE: &str = "cases = expression trees over add, mul, neg/minus, flip and the assign variants whose leaves are rationals \
 built from limb vectors with a deliberate common factor (Num::from_big_num), Num::new, from_num, zero/one and three kinds of NaN; \
-every node is compared with the reference rational (canonical text, is_nan, is_pos, floor), the value is recomputed along an \
+every node is compared with the reference rational (canonical text, is_nan, is_pos, floor; named forms and set_copy/set_move = operator form), the value is recomputed along an \
 equivalent route and must be `==`, and an independent second expression must be `==` iff numerically equal; \
 non-trivial = the result is a proper fraction or negative AND (a leaf had a common factor > 1 or >= 2 limbs); \
 NaN-algebra cases (NaN op x, x op NaN, x in {0, 1, negative, fraction}) count as non-trivial when x is not NaN; \
